@@ -86,6 +86,9 @@ def monitor_trace(tr):
             viol.append(dict(prop='*', i=rec['i'], sig=dict(kind='state-unreadable', op=kind),
                              msg='after %r the cache/archive cannot be read back: %s' % (op, a['error'])))
             break
+        if isinstance(out, dict) and out.get('altered'):
+            viol.append(dict(prop='C16', i=rec['i'], sig=dict(kind='exception-altered', algo=algo, safe=cfg['safe']),
+                             msg='%r: the exception raised by the function arrived altered (%s); it was raised `from` a root cause' % (op, out['altered'])))
         if isinstance(out, dict) and out.get('blocked'):
             for pr in ('C16', 'C01'):
                 viol.append(dict(prop=pr, i=rec['i'], sig=dict(kind='call-blocks-after-a-raising-call', algo=algo, safe=cfg['safe']),
@@ -94,6 +97,10 @@ def monitor_trace(tr):
         if isinstance(out, dict) and 'independence' in out:
             viol.append(dict(prop='C20', i=rec['i'], sig=dict(kind='not-independent', what=out['independence']['what']),
                              msg='using the restored copy changed the original (%s)' % out['independence']['what']))
+        if kind in ('lookup', 'key', 'info', 'archivedq', 'dump', 'dumpAll', 'load', 'loadAll', 'on', 'off', 'setarch', 'extput', 'extdel') \
+           and 'error' not in b and b.get('stats') != a.get('stats') and not (isinstance(out, dict) and 'crash' in out):
+            viol.append(dict(prop='C15', i=rec['i'], sig=dict(kind='non-call-operation-changes-counters', op=kind, algo=algo),
+                             msg='%r is not a call, yet (hit, miss, load) went from %r to %r' % (op, b.get('stats'), a.get('stats'))))
         if kind == 'twin':
             tags['twin-run'] += 1
             if not out['twin']['ok']:
